@@ -88,7 +88,7 @@ MUT = [
     ('sek3: loop reformatted', K, 'for (auto i = 0u; i < K; ++i) { m_out.template block<3, 1>(0, 3 + i) = g_in.template segment<3>(3 * i); }', 'for (auto i = 0u; i < K; ++i)\n    {\n      m_out.template block<3, 1>(0, 3 + i) =\n        g_in.template segment<3>(3 * i);\n    }'),
     ('base: doc comment edit', B, '@brief Inplace group binary composition operation.', '@brief In-place composition (x *= y).'),
     ('derivs: blank lines and a comment added', DI, 'template<LieGroup G>\nTangentMap<G> dr_rminus(const Tangent<G> & e)\n{', 'template<LieGroup G>\nTangentMap<G> dr_rminus(const Tangent<G> & e)\n{\n\n  // Jacobian of rminus'),
-    ('se3: NOLINT comments stripped', E, '-3*C*v.z()*w.x()*w.z() - 3*C*w.x()*(v.x()*w.x() + v.y()*w.y() + v.z()*w.z()) //NOLINT\n      }, { //NOLINT', '-3*C*v.z()*w.x()*w.z() - 3*C*w.x()*(v.x()*w.x() + v.y()*w.y() + v.z()*w.z())\n      }, {'),
+    ('se3: NOLINT comment removed, entry re-wrapped', E, 'v.z()*(B + 3*C)*(w.x()*w.x() + w.y()*w.y()) }}; //NOLINT', 'v.z()*(B + 3*C)*(w.x()*w.x()\n        + w.y()*w.y()) }};'),
 ]
 
 
@@ -171,8 +171,11 @@ def main():
         r = translate(gen)
         if r.returncode != 0:
             counts['translator'] += 1
-            msg = [l for l in r.stdout.strip().split('\n') if 'cannot translate' in l]
-            print(f'{name:62s} translator: {(msg[-1] if msg else r.stdout.strip())[-330:]}')
+            out = r.stdout.strip()
+            k = out.find('gen_src: cannot translate')
+            msg = ' ; '.join(x.strip() for x in (out[k:] if k >= 0 else out).split('\n'))
+            msg = msg.replace('gen_src: cannot translate the current source ', '')
+            print(f'{name:62s} translator: {msg[:600]}')
             continue
         changed = [g for g in GENS if open(os.path.join(gen, g + '.lean')).read() != open(os.path.join(base, g + '.lean')).read()]
         if not changed:
